@@ -10,7 +10,7 @@
 
 use core::fmt;
 
-use crate::{parser::Token, Duration, Epoch, TimeScale};
+use crate::{parser::Token, Duration, Epoch, TimeScale, NANOSECONDS_PER_DAY};
 
 use super::format::Format;
 
@@ -209,7 +209,11 @@ impl fmt::Display for Formatter {
                     }
                     Token::DayOfYearInteger => {
                         write_sep(f, i, &self.format)?;
-                        write!(f, "{:03}", self.epoch.day_of_year().floor() as u16)?
+                        // Whole days from the exact duration: the f64 day count rounds up to the next day
+                        // in the last nanosecond of a day.
+                        let days = self.epoch.duration_in_year().total_nanoseconds()
+                            / i128::from(NANOSECONDS_PER_DAY);
+                        write!(f, "{:03}", days + 1)?
                     }
                     Token::DayOfYear => {
                         write_sep(f, i, &self.format)?;
@@ -280,7 +284,11 @@ impl fmt::Display for Formatter {
                     }
                     Token::DayOfYearInteger => {
                         write_sep(f, i, &self.format)?;
-                        write!(f, "{:03}", self.epoch.day_of_year().floor() as u16)?
+                        // Whole days from the exact duration: the f64 day count rounds up to the next day
+                        // in the last nanosecond of a day.
+                        let days = self.epoch.duration_in_year().total_nanoseconds()
+                            / i128::from(NANOSECONDS_PER_DAY);
+                        write!(f, "{:03}", days + 1)?
                     }
                     Token::DayOfYear => {
                         write_sep(f, i, &self.format)?;
